@@ -80,6 +80,19 @@ def run(ctx):
                 raise vlib.ToolError("reqrep setup: " + i["detail"])
     # B3: sequential histories
     scs = seq_scenarios(5 if thorough else 4)
+    # a reply that comes later than RCVTIMEO: the failed recv() must not re-open the REQ for a send
+    for tr in ["tcp", "inproc"]:
+        ep = S.endpoint(tr, "c10slow")
+        scs.append({"name": "reqslow-%s-srsr" % tr, "deadline_ms": 20000, "under_test": "req", "seq": ("send", "recv", "send", "recv", "recv"),
+                    "sockets": [{"name": "req", "type": "REQ", "opts": [S.i32(S.RCVTIMEO, 150), S.i32(S.SNDTIMEO, 400)]}, {"name": "rep", "type": "REP", "opts": []}],
+                    "tasks": [{"name": "echo", "ops": [{"op": "bind", "sock": "rep", "ep": ep, "save": "ep"}, {"op": "barrier", "name": "go", "parties": 2},
+                                                      {"op": "recv", "sock": "rep", "timeout_ms": 2000}, {"op": "sleep", "ms": 600},
+                                                      {"op": "send", "sock": "rep", "mid": "r:1", "size": 24, "timeout_ms": 700},
+                                                      {"op": "recv", "sock": "rep", "timeout_ms": 1200}, {"op": "send", "sock": "rep", "mid": "r:2", "size": 24, "timeout_ms": 700}]},
+                              {"name": "req", "ops": [{"op": "barrier", "name": "go", "parties": 2}, {"op": "connect", "sock": "req", "ep": "$ep"}, {"op": "sleep", "ms": 150},
+                                                     {"op": "send", "sock": "req", "mid": "q:1", "size": 24}, {"op": "recv", "sock": "req"},
+                                                     {"op": "send", "sock": "req", "mid": "q:2", "size": 24}, {"op": "recv", "sock": "req", "timeout_ms": 1500},
+                                                     {"op": "recv", "sock": "req", "timeout_ms": 1500}]}]})
     metas = [(s.pop("under_test"), s.pop("seq")) for s in scs]
     res = S.run_scenarios(ctx, scs, "c10", timeout=2400, jobs=6)
     lines = []
@@ -114,7 +127,8 @@ def run(ctx):
         which = max(i for i, (st, _, _, _) in enumerate(index) if st <= at)
         st, sc, r0, recs = index[which]
         bad = lines[at]
-        ctx.violation("C10:fsm:%s:%s" % (bad["op"], bad["res"]),
+        after_timeout = any(l["op"] == "req.recv" and l["res"] == "fail" for l in lines[st:at])
+        ctx.violation("C10:%s:%s:%s" % ("fsm-after-timeout" if after_timeout else "fsm", bad["op"], bad["res"]),
                       "%s: call %d (%s) returned %s, which the %s state machine does not allow after %s" % (
                           sc["name"], at - st + 1, bad["op"], bad["res"], bad["op"].split(".")[0].upper(), [l["op"].split(".")[1] + ":" + l["res"] for l in lines[st:at]]),
                       {"kind": "recorded-trace", "scenario": sc, "calls": lines[st:at + 1]})
